@@ -263,6 +263,60 @@ class LoopGen:
 
 
 # ---------------------------------------------------------------------------
+# S2-armloop: a loop that lives in (and may END) one arm of a branch, with up to two guarded terminators / plain
+# branches in its body, next to an arm that may leave early - the shapes in which a loop REGION is a predecessor of
+# a join with several headers
+
+
+class ArmLoopGen:
+    GUARDS = ["none", "break", "continue", "return v", "branch"]
+    OTHER = ["no-else", "marker", "early-return", "plain-return"]
+
+    def __init__(self, ch):
+        self.ch = ch
+        self.kinds_used = []
+
+    def program(self):
+        c = self.ch.choose
+        loop = ["while", "for"][c(2)]
+        g1 = self.GUARDS[c(len(self.GUARDS))]
+        g2 = self.GUARDS[c(len(self.GUARDS))]
+        loop_else = c(2)
+        pre = c(2)
+        trail = c(2)
+        other = self.OTHER[c(len(self.OTHER))]
+        self.kinds_used = ["ifelse" if other != "no-else" else "if", loop]
+        self.position = f"{loop}:{g1}:{g2}:{'else' if loop_else else 'noelse'}:{'pre' if pre else 'nopre'}:{'trail' if trail else 'last'}:{other}"
+        L = ["def f(x, y, n, c, v=0):", "    mark(1)", "    if ext(0):"]
+        if pre:
+            L.append("        mark(2)")
+        L.append("        while ext(1):" if loop == "while" else "        for i1 in range(n):")
+        L.append("            mark(3)")
+        k = 2
+        for j, g in enumerate((g1, g2)):
+            if g == "none":
+                continue
+            L.append(f"            if ext({k}):")
+            k += 1
+            L.append(f"                mark({10 + j})")
+            if g != "branch":
+                L.append(f"                {g}")
+            L.append(f"            v += {j + 1}")
+        if loop_else:
+            L += ["        else:", "            mark(5)"]
+        if trail:
+            L.append("        mark(6)")
+        if other == "marker":
+            L += ["    else:", "        mark(7)"]
+        elif other == "early-return":
+            L += ["    else:", "        mark(7)", f"        if ext({k}):", "            mark(8)", "            return v"]
+        elif other == "plain-return":
+            L += ["    else:", "        return v"]
+        L += ["    mark(9)", "    return v"]
+        return "\n".join(L) + "\n"
+
+
+# ---------------------------------------------------------------------------
 # S2-for: what a for loop leaves in its target
 
 
